@@ -257,11 +257,13 @@ def error_to_message(old_pr, log):
             )
             try:
                 msg = e.to_message()
-                if msg is None:
+                if not isinstance(msg, Message) or msg.code is None:
                     # This deserves a separate check because the ABC checks
                     # that should ensure that the default to_message method is
                     # never used in concrete classes fails due to the metaclass
-                    # conflict between ABC and Exceptions
+                    # conflict between ABC and Exceptions (and anything else
+                    # that is not a response would make the request go
+                    # unanswered)
                     raise ValueError(
                         "Exception to_message failed to produce a message on %r" % e
                     )
